@@ -1064,7 +1064,13 @@ def _witness_cfgs():
     b = {"a": (d_b, 0, 0), "c": (b"u", 7, 9)}
     k = "__env_overrides__"
     base = {"label": "cmd", "shell": False, "inps": {}, "envs": {}, "ovrs": {}, "outs": {}}
+    # skip_full_refuted (proofs/HashSkipProofs.v): the same two output paths on both sides
+    x = b"XXXXXX" + b"\0\1b" + b"\0\0" + bytes(8) + b"\0\0" + bytes(8) + b"\0\0u"
+    dd = b"u\0\1b" + b"\0\0" + m1 + b"\0\0" + s1 + b"\0\0" + b"XXXXXX"
+    sa = {"a": (b"u", 0, 0), "b": (x, 0o100644, 5)}
+    sb = {"a": (dd, 0, 0), "b": (b"u", 0, 0)}
     return {
+        "d2s_A": dict(base, inps=sa, outs=sa), "d2s_B": dict(base, inps=sb, outs=sb),
         "d2_A": dict(base, inps=a, outs=a), "d2_B": dict(base, inps=b, outs=b),
         "d2b_1": dict(base, envs={"A": "b"}, ovrs={"c": k}),
         "d2b_2": dict(base, envs={"A": "b", k: "c"}),
@@ -1301,7 +1307,7 @@ def _oracle_ambiguity(ctx, n):
     rng = ctx.rng
     w = _witness_cfgs()
     # D2: replay of the Coq witness first, then the generator
-    pairs = [(w["d2_A"], w["d2_B"])]
+    pairs = [(w["d2_A"], w["d2_B"]), (w["d2s_A"], w["d2s_B"])]
     for _ in range(n):
         sp = _splice_pair(rng)
         if sp is not None:
